@@ -5,17 +5,18 @@
 
   The unit of modelling is a small expression language `Ex` (leaves = a variable holding a value, an
   undeclared identifier, a property with a logging getter; `(log(t), e)`; unary; binary; `&&`; `||`;
-  `?:`).  Every side effect is an append to a log, so "what was called, in which order" is part of
+  `?:`; compound assignment `x op= e` and `b[k] op= e`).  Every side effect is an append to a log, so "what was called, in which order" is part of
   the result.
 
-  MODEL  = otto: cmpl_evaluate_expression.go cmplEvaluateNodeUnaryExpression (l.336),
-           cmplEvaluateNodeBinaryExpression (l.133), …Comparison (l.156), …ConditionalExpression
-           (l.237), …SequenceExpression (l.327); evaluate.go calculateBinaryExpression (l.52);
+  MODEL  = otto: cmpl_evaluate_expression.go cmplEvaluateNodeUnaryExpression (l.347),
+           cmplEvaluateNodeBinaryExpression (l.138), …Comparison (l.161), …ConditionalExpression
+           (l.248), …SequenceExpression (l.338), …AssignExpression (l.118), …BracketExpression (l.168);
+           evaluate.go calculateBinaryExpression (l.53);
            type_function.go isCall (l.152), hasInstance (l.253); object_class.go objectGetProperty
            (l.184), objectHasProperty (l.311); type_string.go stringGetOwnProperty (l.103);
            value_number.go float64 (l.46) / toInt32 (l.208) / toUint32 (l.228) and value_string.go
            string (l.48), value_boolean.go bool (l.10) as they treat objects.
-  SPEC   = ES5 §11.4.2–11.4.9, §11.5–11.7, §11.8.6, §11.8.7, §11.10, §11.11, §11.12, §11.14,
+  SPEC   = ES5 §11.4.2–11.4.9, §11.5–11.7, §11.2.1, §11.8.6, §11.8.7, §11.10, §11.11, §11.12, §11.13.2, §11.14,
            §8.7.1 GetValue, §8.12.6, §9.2, §9.3, §9.5, §9.6, §9.8, §15.3.5.3, §15.3.4.5.3, §15.5.5.2.
 -/
 import OttoVerif.C05.Obj
@@ -74,6 +75,13 @@ inductive BOp where
   | inOp
 deriving DecidableEq, Repr
 
+/-- the property a member reference `b[k]` designates: a data property holding v, or an accessor whose
+    getter logs `gtag` and returns v and whose setter logs `stag` -/
+inductive PropK where
+  | data (v : Vl)
+  | acc (gtag stag : String) (v : Vl)
+deriving DecidableEq, Repr, Inhabited
+
 inductive Ex where
   | leaf (r : Rf)
   | seq (tag : String) (e : Ex)        -- (log(tag), e)
@@ -82,6 +90,8 @@ inductive Ex where
   | and (a b : Ex)
   | or (a b : Ex)
   | cond (c t f : Ex)
+  | asg (o : BinOp) (lref : Rf) (r : Ex)                 -- `x op= r`, `undeclared op= r`, `g.p op= r`
+  | asgMem (o : BinOp) (b k : Ex) (p : PropK) (r : Ex)   -- `b[k] op= r`; the reference designates property p
 deriving Repr, Inhabited
 
 /-! ## Results with a log -/
@@ -147,7 +157,7 @@ def stringV (E : Env) (v : Vl) (log : List String) : Res (List Nat) :=
   | .prim p => .ok (primToStr E p) log
   | .obj b => (ofR (defaultValue b.o .string log)).bind fun p l => .ok (primToStr E p) l
 
-/-! ## MODEL: unary operators (cmpl_evaluate_expression.go:336) -/
+/-! ## MODEL: unary operators (cmpl_evaluate_expression.go:347) -/
 
 /-- math.Copysign -/
 def copysign (x y : FV) : FV :=
@@ -161,7 +171,7 @@ def isCall : FK → Bool
   | .none => false
   | _ => true
 
-/-- the `typeof` switch on targetValue.kind (l.408–428) -/
+/-- the `typeof` switch on targetValue.kind (l.419–439) -/
 def typeofV : Vl → List Nat
   | .prim .undef => bytes "undefined"
   | .prim .null => bytes "object"
@@ -174,15 +184,15 @@ def typeofV : Vl → List Nat
 /-- the operator applied to `target.resolve()` -/
 def unaryV (E : Env) (op : UOp) (tv : Vl) (log : List String) : Res Vl :=
   match op with
-  | .lnot => .ok (.prim (.bool (if boolV tv then false else true))) log          -- l.349
-  | .bnot => (numPrim E tv log).bind fun p l => .ok (.prim (.int .i32 (-(toInt32 E p) - 1))) l   -- l.355 `^integerValue`
-  | .plus => (float64V E tv log).bind fun f l => .ok (.prim (.f64 f)) l          -- l.359
-  | .neg => (float64V E tv log).bind fun f l =>                                    -- l.362
+  | .lnot => .ok (.prim (.bool (if boolV tv then false else true))) log          -- l.360
+  | .bnot => (numPrim E tv log).bind fun p l => .ok (.prim (.int .i32 (-(toInt32 E p) - 1))) l   -- l.366 `^integerValue`
+  | .plus => (float64V E tv log).bind fun f l => .ok (.prim (.f64 f)) l          -- l.370
+  | .neg => (float64V E tv log).bind fun f l =>                                    -- l.373
       .ok (.prim (.f64 (copysign f (if signBit f then one else neg one)))) l
-  | .void => .ok (.prim .undef) log                                                -- l.399
-  | .typeof => .ok (.prim (.str (typeofV tv))) log                                 -- l.408
+  | .void => .ok (.prim .undef) log                                                -- l.410
+  | .typeof => .ok (.prim (.str (typeofV tv))) log                                 -- l.419
 
-/-- cmplEvaluateNodeUnaryExpression: `typeof` of an invalid reference answers without resolving (l.339) -/
+/-- cmplEvaluateNodeUnaryExpression: `typeof` of an invalid reference answers without resolving (l.350) -/
 def unary (E : Env) (op : UOp) (target : Rf) (log : List String) : Res Vl :=
   match op, target with
   | .typeof, .unres => .ok (.prim (.str (bytes "undefined"))) log
@@ -236,12 +246,12 @@ def getProperty : List Layer → List Nat → Bool
 
 /-! ## MODEL: binary operators -/
 
-/-- calculateBinaryExpression (evaluate.go:52) with the left operand resolved and the right operand as
-    cmplEvaluateNodeBinaryExpression passes it: evaluated but NOT yet resolved (l.153); every arm resolves it first -/
+/-- calculateBinaryExpression (evaluate.go:53) with the left operand resolved and the right operand as
+    cmplEvaluateNodeBinaryExpression passes it: evaluated but NOT yet resolved (l.158); every arm resolves it first -/
 def binary (E : Env) (op : BOp) (lv : Vl) (right : Rf) (log : List String) : Res Vl :=
   match op with
   | .num .add =>
-    -- l.58: rightValue := right.resolve(); then toPrimitiveValue of the left value, then of the right one
+    -- l.59: rightValue := right.resolve(); then toPrimitiveValue of the left value, then of the right one
     (getValue right log).bind fun rv l1 =>
     (ofR (toPrimitive lv.toOV .none l1)).bind fun lp l2 =>
     (ofR (toPrimitive rv.toOV .none l2)).bind fun rp l3 =>
@@ -254,26 +264,52 @@ def binary (E : Env) (op : BOp) (lv : Vl) (right : Rf) (log : List String) : Res
     (numPrim E lv l1).bind fun px l2 =>
     (numPrim E rv l2).bind fun py l3 => .ok (.prim (binNum E o px py)) l3
   | .cmp c =>
-    -- cmplEvaluateNodeBinaryExpressionComparison (l.156): both resolved, then calculateComparison
+    -- cmplEvaluateNodeBinaryExpressionComparison (l.161): both resolved, then calculateComparison
     (getValue right log).bind fun rv l1 =>
     (ofRPre l1 (Obj.apply E (.cmp c) lv.toOV rv.toOV)).bind fun r l2 => .ok (.prim r) l2
   | .instOf =>
     (getValue right log).bind fun rv l1 =>
       match rv with
-      | .prim _ => .typeError l1                                             -- evaluate.go:121
+      | .prim _ => .typeError l1                                             -- evaluate.go:122
       | .obj f => (hasInstance f.fk lv l1).bind fun r l2 => .ok (.prim (.bool r)) l2
   | .inOp =>
     (getValue right log).bind fun rv l1 =>
       match rv with
-      | .prim _ => .typeError l1                                             -- evaluate.go:128
+      | .prim _ => .typeError l1                                             -- evaluate.go:129
       | .obj r => (stringV E lv l1).bind fun name l2 => .ok (.prim (.bool (getProperty r.layers name))) l2
+
+/-! ## MODEL: member references and compound assignment -/
+
+def isNullishV : Vl → Bool
+  | .prim .undef => true
+  | .prim .null => true
+  | _ => false
+
+/-- cmplEvaluateNodeBracketExpression (cmpl_evaluate_expression.go:168) after target and member are
+    resolved: objectCoerce (TypeError for undefined/null, whose message names the member only when that
+    needs no conversion), then memberValue.string() -/
+def memberRef (E : Env) (bv kv : Vl) (log : List String) : Res Unit :=
+  if isNullishV bv then .typeError log
+  else (stringV E kv log).bind fun _ l => .ok () l
+
+/-- propertyReference.getValue (type_reference.go:34) → object.get: an accessor runs its getter -/
+def propGet (p : PropK) (log : List String) : Res Vl :=
+  match p with
+  | .data v => .ok v log
+  | .acc g _ v => .ok v (log ++ [g])
+
+/-- propertyReference.putValue (type_reference.go:41) → object.put: an accessor runs its setter -/
+def propPut (p : PropK) (log : List String) : List String :=
+  match p with
+  | .data _ => log
+  | .acc _ s _ => log ++ [s]
 
 /-! ## MODEL: expressions -/
 
 def eval (E : Env) : Ex → List String → Res Rf
   | .leaf r, log => .ok r log
   | .seq t e, log =>
-    -- cmplEvaluateNodeSequenceExpression (l.327): each element is evaluated and resolved
+    -- cmplEvaluateNodeSequenceExpression (l.338): each element is evaluated and resolved
     (eval E e (log ++ [t])).bind fun r l1 => (getValue r l1).bind fun v l2 => .ok (.value v) l2
   | .un op e, log =>
     (eval E e log).bind fun target l1 => (unary E op target l1).bind fun v l2 => .ok (.value v) l2
@@ -282,18 +318,33 @@ def eval (E : Env) : Ex → List String → Res Rf
     (eval E b l2).bind fun right l3 => (binary E op lv right l3).bind fun v l4 => .ok (.value v) l4
   | .and a b, log =>
     (eval E a log).bind fun left l1 => (getValue left l1).bind fun lv l2 =>
-      if !boolV lv then .ok (.value lv) l2                                   -- l.140
+      if !boolV lv then .ok (.value lv) l2                                   -- l.145
       else (eval E b l2).bind fun right l3 => (getValue right l3).bind fun rv l4 => .ok (.value rv) l4
   | .or a b, log =>
     (eval E a log).bind fun left l1 => (getValue left l1).bind fun lv l2 =>
-      if boolV lv then .ok (.value lv) l2                                    -- l.146
+      if boolV lv then .ok (.value lv) l2                                    -- l.151
       else (eval E b l2).bind fun right l3 => (getValue right l3).bind fun rv l4 => .ok (.value rv) l4
   | .cond c t f, log =>
-    -- l.237: the chosen branch, resolved (l.241/243 `.resolve()`)
+    -- l.248: the chosen branch, resolved (l.252/254 `.resolve()`)
     (eval E c log).bind fun test l1 => (getValue test l1).bind fun tv l2 =>
       if boolV tv
       then (eval E t l2).bind fun r l3 => (getValue r l3).bind fun v l4 => .ok (.value v) l4
       else (eval E f l2).bind fun r l3 => (getValue r l3).bind fun v l4 => .ok (.value v) l4
+
+  | .asg o lref r, log =>
+    -- cmplEvaluateNodeAssignExpression (l.118): the left reference is evaluated and, for `op=`, resolved
+    -- (l.123) before the right side is evaluated and resolved; putValue on a variable or a getter-only
+    -- property leaves no trace in the log
+    (getValue lref log).bind fun lv l1 =>
+    (eval E r l1).bind fun right l2 => (getValue right l2).bind fun rv l3 =>
+    (binary E (.num o) lv (.value rv) l3).bind fun res l4 => .ok (.value res) l4
+  | .asgMem o b k p r, log =>
+    (eval E b log).bind fun t l1 => (getValue t l1).bind fun bv l2 =>
+    (eval E k l2).bind fun m l3 => (getValue m l3).bind fun kv l4 =>
+    (memberRef E bv kv l4).bind fun _ l5 =>
+    (propGet p l5).bind fun lv l6 =>
+    (eval E r l6).bind fun right l7 => (getValue right l7).bind fun rv l8 =>
+    (binary E (.num o) lv (.value rv) l8).bind fun res l9 => .ok (.value res) (propPut p l9)
 
 /-- the expression in a value context (`__r = <e>`) -/
 def run (E : Env) (e : Ex) : Res Vl := (eval E e []).bind getValue
@@ -403,6 +454,25 @@ def binary (E : Env) (op : BOp) (lv rv : Vl) (log : List String) : Res Vl :=
     | .prim _ => .typeError log
     | .obj r => (toStringV E lv log).bind fun name l => .ok (.prim (.bool (hasProperty r.layers name))) l
 
+/-- §11.2.1 steps 5–6: CheckObjectCoercible(baseValue), then ToString(propertyNameValue) -/
+def memberRef (E : Env) (bv kv : Vl) (log : List String) : Res Unit :=
+  match bv with
+  | .prim .undef => .typeError log
+  | .prim .null => .typeError log
+  | _ => (toStringV E kv log).bind fun _ l => .ok () l
+
+/-- §8.7.1 GetValue on a property reference: [[Get]] (§8.12.3: an accessor's getter is called) -/
+def propGet (p : PropK) (log : List String) : Res Vl :=
+  match p with
+  | .data v => .ok v log
+  | .acc g _ v => .ok v (log ++ [g])
+
+/-- §8.7.2 PutValue on a property reference: [[Put]] (§8.12.5: an accessor's setter is called) -/
+def propPut (p : PropK) (log : List String) : List String :=
+  match p with
+  | .data _ => log
+  | .acc _ s _ => log ++ [s]
+
 /-- evaluation of an expression to a Reference or a value -/
 def eval (E : Env) : Ex → List String → Res Rf
   | .leaf r, log => .ok r log
@@ -427,6 +497,18 @@ def eval (E : Env) : Ex → List String → Res Rf
       if toBooleanV tv
       then (eval E t l2).bind fun r l3 => (getValue r l3).bind fun v l4 => .ok (.value v) l4
       else (eval E f l2).bind fun r l3 => (getValue r l3).bind fun v l4 => .ok (.value v) l4
+
+  | .asg o lref r, log =>      -- §11.13.2: lref, lval = GetValue(lref), rref, rval = GetValue(rref), r = lval op rval, PutValue
+    (getValue lref log).bind fun lv l1 =>
+    (eval E r l1).bind fun rref l2 => (getValue rref l2).bind fun rv l3 =>
+    (binary E (.num o) lv rv l3).bind fun res l4 => .ok (.value res) l4
+  | .asgMem o b k p r, log =>  -- §11.2.1 for the left side, then §11.13.2
+    (eval E b log).bind fun bref l1 => (getValue bref l1).bind fun bv l2 =>
+    (eval E k l2).bind fun kref l3 => (getValue kref l3).bind fun kv l4 =>
+    (memberRef E bv kv l4).bind fun _ l5 =>
+    (propGet p l5).bind fun lv l6 =>
+    (eval E r l6).bind fun rref l7 => (getValue rref l7).bind fun rv l8 =>
+    (binary E (.num o) lv rv l8).bind fun res l9 => .ok (.value res) (propPut p l9)
 
 def run (E : Env) (e : Ex) : Res Vl := (eval E e []).bind getValue
 
